@@ -2,37 +2,104 @@
 Instantiation of the RW-lock discipline model with the C01 trie model: the whole trie (everything reachable from
 the root-key field, whose location `L` is resolved from the regenerated table) is ONE location holding the C01 model state; an update
 (`ins`/`del`) is a W-mode operation that reads it, applies the C01 model step and writes it back; a lookup or an
-iteration is an R-mode operation that reads it. Helper lemmas for `Verif.Props.C16Map`.
+iteration is an R-mode operation that reads it. The location also holds the trie's change collector (store agent's
+`Verif.MptStore.Collector`, fed with the `insertNode`/`deleteNode` events of `insertE`/`deleteE`); the change-set reads
+are R-mode reads of it, `MergeChanges` is a W-mode operation replacing the tree and replaying a change set.
+Helper lemmas for `Verif.Props.C16Map`.
 -/
 import Verif.Props.C01
 import Verif.Props.C02
 import Verif.Lemmas.RWDiscipline
+import Verif.Lemmas.MptStoreTrie
+import Verif.Lemmas.MptStoreEvents
 
 set_option linter.unusedSimpArgs false
 set_option linter.unusedVariables false
 namespace Verif.C16Map
 open Verif.RW Verif.Mpt Verif.Props.C01
 
-/-- the operations of the trie model in the concurrent setting: the C01 operations, `GetRoot`, and `SaveChanges` -/
+open Verif.MptStore (Event Ref Change Collector insertE deleteE callsOf)
+open Verif.MptStore.Collector (run)
+
+/-- the state the trie's RW lock protects: the C01 model state (tree, version) and the change collector -/
+structure XState where
+  ms : MState
+  cc : Collector Bytes Ref
+
+/-- the collector of a trie opened on the empty root, after the `insertNode`/`deleteNode` events `es`
+(`collect (events …)`: the store agent's collector algebra `Verif.Props.C04.collector_algebra` is about exactly this
+`run … (callsOf H es)`) -/
+def collect (H : Bytes → Bytes) (es : List Event) : Collector Bytes Ref :=
+  run (Ref.key H) { startRoot := [] } (callsOf H es)
+
+def xinit (v0 : Nat) : XState := { ms := Verif.Props.C01.init v0, cc := { startRoot := [] } }
+
+/-- the operations of the trie model in the concurrent setting: the C01 operations, `GetRoot`, `SaveChanges`, the
+change-set reads, and `MergeChanges(newRoot, changes, deletes, startRoot)` — `child` is the content `newRoot` stands
+for, `ces` the replay (`insertNode` per change, `deleteNode` per delete) of the change set, `sr` the start root -/
 inductive TOp where
   | base (op : Verif.Props.C01.Op)
   | root
   | save
+  | changes
+  | deletes
+  | count
+  | merge (child : Node) (ces : List Event) (sr : Bytes)
 
 /-- what an operation returns -/
 inductive TObs where
   | obs (o : Obs)
   | root (r : Bytes)
   | saved
+  | changes (cs : List (Change Ref))
+  | deletes (ds : List Ref)
+  | count (n : Nat)
+  | merged (ok : Bool)
 
-/-- sequential semantics: the C01 model step; `GetRoot` returns the root key of the trie (C02's `root`, for the hash
-function `H`); `SaveChanges` writes the pending change set to ANOTHER store and leaves the trie (the map) as it is -/
-def tstep (H : Bytes → Bytes) (maxSize : Nat) (s : MState) : TOp → MState × TObs
-  | .base op => ((mstep maxSize s op).1, .obs (mstep maxSize s op).2)
-  | .root => (s, .root (root H s.t))
+def delEvents (s : MState) (p : List Nib) : List Event :=
+  match deleteE s.v s.t [] p with
+  | (.removed, es) => es
+  | (.node _, es) => es
+  | _ => []
+
+/-- the `insertNode`/`deleteNode` calls a C01 operation makes on tree `s.t` (Model/MptStore `insertE`/`deleteE`; an
+empty value is a delete, an over-size value is rejected before anything is touched) -/
+def opEvents (maxSize : Nat) (s : MState) : Verif.Props.C01.Op → List Event
+  | .ins p b => if b = [] then delEvents s p else if b.length > maxSize then [] else (insertE s.v b s.t [] p).2
+  | .del p => delEvents s p
+  | _ => []
+
+/-- `MergeChanges` applies unless the roots already agree (nothing to do) or the trie moved on (stale) -/
+def mergeApplies (H : Bytes → Bytes) (t child : Node) (sr : Bytes) : Bool :=
+  decide (root H t ≠ root H child) && decide (root H t = sr)
+
+def mergeOk (H : Bytes → Bytes) (t child : Node) (sr : Bytes) : Bool :=
+  decide (root H t = root H child) || decide (root H t = sr)
+
+/-- the events an operation feeds to the collector when run on state `s` -/
+def tevents (H : Bytes → Bytes) (maxSize : Nat) (s : XState) : TOp → List Event
+  | .base op => opEvents maxSize s.ms op
+  | .merge child ces sr => if mergeApplies H s.ms.t child sr then ces else []
+  | _ => []
+
+/-- sequential semantics: the C01 model step, its events going to the collector; `GetRoot` returns the root key of
+the trie (C02's `root`, for the hash function `H`); `SaveChanges` writes a CLONE of the pending change set to ANOTHER
+store and leaves the trie and its collector as they are; the change-set reads return the collector's content;
+`MergeChanges` replaces the tree by the child's and replays the change set into the collector -/
+def tstep (H : Bytes → Bytes) (maxSize : Nat) (s : XState) : TOp → XState × TObs
+  | .base op => ({ ms := (mstep maxSize s.ms op).1, cc := run (Ref.key H) s.cc (callsOf H (opEvents maxSize s.ms op)) },
+      .obs (mstep maxSize s.ms op).2)
+  | .root => (s, .root (root H s.ms.t))
   | .save => (s, .saved)
+  | .changes => (s, .changes s.cc.getChanges)
+  | .deletes => (s, .deletes s.cc.getDeletes)
+  | .count => (s, .count s.cc.getChanges.length)
+  | .merge child ces sr =>
+    if mergeApplies H s.ms.t child sr then
+      ({ ms := { s.ms with t := child }, cc := run (Ref.key H) s.cc (callsOf H ces) }, .merged true)
+    else (s, .merged (mergeOk H s.ms.t child sr))
 
-def trun (H : Bytes → Bytes) (maxSize : Nat) (s : MState) : List TOp → MState × List TObs
+def trun (H : Bytes → Bytes) (maxSize : Nat) (s : XState) : List TOp → XState × List TObs
   | [] => (s, [])
   | op :: ops =>
     let r := tstep H maxSize s op
@@ -42,6 +109,7 @@ def trun (H : Bytes → Bytes) (maxSize : Nat) (s : MState) : List TOp → MStat
 def isUpdate : TOp → Bool
   | .base (.ins _ _) => true
   | .base (.del _) => true
+  | .merge _ _ _ => true
   | _ => false
 
 /-- `SetVersion` is outside the claimed scope of C16 -/
@@ -49,8 +117,13 @@ def NoVer : TOp → Prop
   | .base (.ver _) => False
   | _ => True
 
+/-- the tree a merge brings is canonical and of the trie's version (a child trie of the same block) -/
+def MergeWF (v0 : Nat) : TOp → Prop
+  | .merge child _ _ => WF child ∧ AllOrigin v0 child
+  | _ => True
+
 /-- critical section of a trie operation over location `L` -/
-def body (L : Loc) (H : Bytes → Bytes) (maxSize : Nat) (op : TOp) : Prog MState TObs :=
+def body (L : Loc) (H : Bytes → Bytes) (maxSize : Nat) (op : TOp) : Prog XState TObs :=
   if isUpdate op then
     .rd L 0 (fun s => .wr L 0 (tstep H maxSize s op).1 (.rel (.ret (tstep H maxSize s op).2)))
   else
@@ -59,18 +132,19 @@ def body (L : Loc) (H : Bytes → Bytes) (maxSize : Nat) (op : TOp) : Prog MStat
 def modeOfOp (op : TOp) : Mode := if isUpdate op then .W else .R
 
 /-- the operation as the threads run it: take the trie's lock in the mode the real method takes, run, release -/
-def opProg (L : Loc) (H : Bytes → Bytes) (maxSize : Nat) (op : TOp) : Prog MState TObs := .acq (modeOfOp op) (body L H maxSize op)
+def opProg (L : Loc) (H : Bytes → Bytes) (maxSize : Nat) (op : TOp) : Prog XState TObs := .acq (modeOfOp op) (body L H maxSize op)
 
-theorem body_run (L : Loc) (H : Bytes → Bytes) (maxSize : Nat) (op : TOp) (h : NoVer op) (mem : Loc → MState) :
+theorem body_run (L : Loc) (H : Bytes → Bytes) (maxSize : Nat) (op : TOp) (h : NoVer op) (mem : Loc → XState) :
     ((body L H maxSize op).run mem).2 = (tstep H maxSize (mem L) op).2 ∧
     ((body L H maxSize op).run mem).1 L = (tstep H maxSize (mem L) op).1 := by
-  rcases op with (_ | _ | _ | _ | _) | _ | _ <;> simp [body, isUpdate, Prog.run, tstep, mstep, NoVer] at h ⊢
+  rcases op with (_ | _ | _ | _ | _) | _ | _ | _ | _ | _ | _ <;>
+    simp [body, isUpdate, Prog.run, tstep, mstep, opEvents, Verif.MptStore.Collector.run, callsOf, NoVer] at h ⊢
 
 theorem bodyOK (L : Loc) (H : Bytes → Bytes) (maxSize : Nat) (op : TOp) : BodyOK (body L H maxSize op) := by
-  rcases op with (_ | _ | _ | _ | _) | _ | _ <;> simp [body, isUpdate, BodyOK]
+  rcases op with (_ | _ | _ | _ | _) | _ | _ | _ | _ | _ | _ <;> simp [body, isUpdate, BodyOK]
 
-/-- sequential run of logged bodies = the C01 model run of the corresponding operations -/
-theorem seqRun_mrun (L : Loc) (H : Bytes → Bytes) (maxSize : Nat) : ∀ (es : List (LinEntry MState TObs)) (ops : List TOp) (mem : Loc → MState),
+/-- sequential run of logged bodies = the model run of the corresponding operations -/
+theorem seqRun_mrun (L : Loc) (H : Bytes → Bytes) (maxSize : Nat) : ∀ (es : List (LinEntry XState TObs)) (ops : List TOp) (mem : Loc → XState),
     es.map (·.prog) = ops.map (body L H maxSize) → (∀ op, op ∈ ops → NoVer op) →
     (seqRun es mem).2 = (trun H maxSize (mem L) ops).2 ∧ (seqRun es mem).1 L = (trun H maxSize (mem L) ops).1 := by
   intro es
@@ -100,37 +174,61 @@ theorem seqRun_mrun (L : Loc) (H : Bytes → Bytes) (maxSize : Nat) : ∀ (es : 
 def TInv (v0 : Nat) (s : MState) (m : Spec) : Prop :=
   WF s.t ∧ AllOrigin v0 s.t ∧ s.v = v0 ∧ ∀ q, lookup s.t q = m q
 
-/-- effect on the specification map: only the C01 updates change it; `GetRoot` and `SaveChanges` do not -/
-def tsstep (maxSize : Nat) (m : Spec) : TOp → Spec
+/-- effect on the specification map: the C01 updates; an applied `MergeChanges` makes it the content of the child's
+tree; nothing else changes it -/
+def tsstep (H : Bytes → Bytes) (maxSize : Nat) (m : Spec) (s : XState) : TOp → Spec
   | .base op => (sstep maxSize m op).1
+  | .merge child _ sr => if mergeApplies H s.ms.t child sr then lookup child else m
   | _ => m
 
-def tsfinal (maxSize : Nat) (m : Spec) (ops : List TOp) : Spec := ops.foldl (tsstep maxSize) m
+/-- the specification map after a list of operations -/
+def tspec (H : Bytes → Bytes) (maxSize : Nat) : Spec → XState → List TOp → Spec
+  | m, _, [] => m
+  | m, s, op :: ops => tspec H maxSize (tsstep H maxSize m s op) (tstep H maxSize s op).1 ops
 
-/-- the observations agree with the specification run from map `m`: a C01 operation returns what the map
-specification returns (`ObsRel`); `GetRoot` returns THE root key of the map at that point — the root (C02's `root H`) of
-every canonical single-origin trie that reads as the map; `SaveChanges` returns and leaves the map unchanged -/
-def TRel (H : Bytes → Bytes) (v0 maxSize : Nat) : Spec → List TOp → List TObs → Prop
-  | _, [], [] => True
-  | m, .base op :: ops, .obs o :: os =>
-      ObsRel o (sstep maxSize m op).2 ∧ TRel H v0 maxSize (sstep maxSize m op).1 ops os
-  | m, .root :: ops, .root r :: os =>
-      (∀ t', WF t' → AllOrigin v0 t' → (∀ q, lookup t' q = m q) → r = root H t') ∧ TRel H v0 maxSize m ops os
-  | m, .save :: ops, .saved :: os => TRel H v0 maxSize m ops os
-  | _, _, _ => False
+/-- the `insertNode`/`deleteNode` events of a list of operations -/
+def tevs (H : Bytes → Bytes) (maxSize : Nat) : XState → List TOp → List Event
+  | _, [] => []
+  | s, op :: ops => tevents H maxSize s op ++ tevs H maxSize (tstep H maxSize s op).1 ops
 
-theorem tstep_inv (H : Bytes → Bytes) (maxSize v0 : Nat) {s : MState} {m : Spec} (h : TInv v0 s m) (op : TOp)
-    (hn : NoVer op) : TInv v0 (tstep H maxSize s op).1 (tsstep maxSize m op) := by
+/-- one result against the specification, `m` the map, `s` the sequential model state and `es` the collector events
+of the linearized prefix: a C01 operation returns what the map specification returns (`ObsRel`); `GetRoot` returns
+THE root key of the map — the root (C02's `root H`) of every canonical single-origin trie that reads as the map;
+`GetChanges`/`GetDeletes`/`GetChangeCount` return the content of `collect es`; `MergeChanges` succeeds unless stale -/
+def ObsOk (H : Bytes → Bytes) (v0 maxSize : Nat) (m : Spec) (s : XState) (es : List Event) : TOp → TObs → Prop
+  | .base op, .obs o => ObsRel o (sstep maxSize m op).2
+  | .root, .root r => ∀ t', WF t' → AllOrigin v0 t' → (∀ q, lookup t' q = m q) → r = root H t'
+  | .save, .saved => True
+  | .changes, .changes cs => cs = (collect H es).getChanges
+  | .deletes, .deletes ds => ds = (collect H es).getDeletes
+  | .count, .count n => n = (collect H es).getChanges.length
+  | .merge child _ sr, .merged ok => ok = mergeOk H s.ms.t child sr
+  | _, _ => False
+
+/-- the observations agree with the specification run -/
+def TRel (H : Bytes → Bytes) (v0 maxSize : Nat) : Spec → XState → List Event → List TOp → List TObs → Prop
+  | _, _, _, [], [] => True
+  | m, s, es, op :: ops, o :: os =>
+      ObsOk H v0 maxSize m s es op o ∧
+      TRel H v0 maxSize (tsstep H maxSize m s op) (tstep H maxSize s op).1 (es ++ tevents H maxSize s op) ops os
+  | _, _, _, _, _ => False
+
+theorem collect_append (H : Bytes → Bytes) (es fs : List Event) :
+    run (Ref.key H) (collect H es) (callsOf H fs) = collect H (es ++ fs) := by
+  simp [collect, Verif.MptStore.Collector.run, callsOf, List.filterMap_append, List.foldl_append]
+
+theorem tstep_inv (H : Bytes → Bytes) (maxSize v0 : Nat) {s : XState} {m : Spec} (h : TInv v0 s.ms m) (op : TOp)
+    (hn : NoVer op) (hmw : MergeWF v0 op) : TInv v0 (tstep H maxSize s op).1.ms (tsstep H maxSize m s op) := by
   obtain ⟨hwf, hao, hv, hm⟩ := h
-  rcases op with bop | _ | _
-  · have hr := (step_refines maxSize (s := s) (m := m) ⟨hwf, hm⟩ bop).1
+  rcases op with bop | _ | _ | _ | _ | _ | ⟨child, ces, sr⟩
+  · have hr := (step_refines maxSize (s := s.ms) (m := m) ⟨hwf, hm⟩ bop).1
     refine ⟨hr.1, ?_, ?_, hr.2⟩
     · cases bop with
       | ins p b =>
-        have := (Verif.Mpt.repr_step Verif.Props.C02.mapLaws maxSize v0 s.t m (.ins p b) ⟨hwf, hao, hm⟩).2.1
+        have := (Verif.Mpt.repr_step Verif.Props.C02.mapLaws maxSize v0 s.ms.t m (.ins p b) ⟨hwf, hao, hm⟩).2.1
         simpa [tstep, mstep, Verif.Mpt.step, hv] using this
       | del p =>
-        have := (Verif.Mpt.repr_step Verif.Props.C02.mapLaws maxSize v0 s.t m (.del p) ⟨hwf, hao, hm⟩).2.1
+        have := (Verif.Mpt.repr_step Verif.Props.C02.mapLaws maxSize v0 s.ms.t m (.del p) ⟨hwf, hao, hm⟩).2.1
         simpa [tstep, mstep, Verif.Mpt.step, hv] using this
       | get p => simpa [tstep, mstep] using hao
       | iter => simpa [tstep, mstep] using hao
@@ -138,38 +236,68 @@ theorem tstep_inv (H : Bytes → Bytes) (maxSize v0 : Nat) {s : MState} {m : Spe
     · cases bop <;> simp_all [tstep, mstep, NoVer]
   · exact ⟨hwf, hao, hv, hm⟩
   · exact ⟨hwf, hao, hv, hm⟩
+  · exact ⟨hwf, hao, hv, hm⟩
+  · exact ⟨hwf, hao, hv, hm⟩
+  · exact ⟨hwf, hao, hv, hm⟩
+  · simp only [tstep, tsstep]
+    cases hap : mergeApplies H s.ms.t child sr
+    · exact ⟨hwf, hao, hv, hm⟩
+    · exact ⟨hmw.1, hmw.2, hv, fun _ => rfl⟩
+
+theorem tstep_cc (H : Bytes → Bytes) (maxSize : Nat) (s : XState) (es : List Event) (h : s.cc = collect H es) (op : TOp) :
+    (tstep H maxSize s op).1.cc = collect H (es ++ tevents H maxSize s op) := by
+  rcases op with bop | _ | _ | _ | _ | _ | ⟨child, ces, sr⟩ <;> simp only [tstep, tevents, List.append_nil, h]
+  · exact collect_append H es _
+  · cases hap : mergeApplies H s.ms.t child sr <;> simp [h, collect_append]
 
 /-- the sequential run of the extended operations agrees with the specification and keeps the invariant -/
-theorem trun_rel (H : Bytes → Bytes) (maxSize v0 : Nat) : ∀ (ops : List TOp) {s : MState} {m : Spec}, TInv v0 s m →
-    (∀ op, op ∈ ops → NoVer op) →
-    TRel H v0 maxSize m ops (trun H maxSize s ops).2 ∧ TInv v0 (trun H maxSize s ops).1 (tsfinal maxSize m ops) := by
+theorem trun_rel (H : Bytes → Bytes) (maxSize v0 : Nat) : ∀ (ops : List TOp) {s : XState} {m : Spec} {es : List Event},
+    TInv v0 s.ms m → s.cc = collect H es → (∀ op, op ∈ ops → NoVer op ∧ MergeWF v0 op) →
+    TRel H v0 maxSize m s es ops (trun H maxSize s ops).2 ∧
+    TInv v0 (trun H maxSize s ops).1.ms (tspec H maxSize m s ops) ∧
+    (trun H maxSize s ops).1.cc = collect H (es ++ tevs H maxSize s ops) := by
   intro ops
   induction ops with
-  | nil => intro s m h _; exact ⟨trivial, h⟩
+  | nil => intro s m es h hc _; exact ⟨trivial, h, by simpa [trun, tevs] using hc⟩
   | cons op ops ih =>
-    intro s m h hnv
-    have hstep := tstep_inv H maxSize v0 h op (hnv op (by simp))
-    have := ih hstep (fun o ho => hnv o (by simp [ho]))
-    simp only [trun, tsfinal, List.foldl_cons]
-    refine ⟨?_, this.2⟩
-    rcases op with bop | _ | _
-    · exact ⟨(step_refines maxSize (s := s) (m := m) ⟨h.1, h.2.2.2⟩ bop).2.1, this.1⟩
-    · refine ⟨?_, this.1⟩
-      intro t' hw' ho' hl'
-      exact Verif.Props.C02.C02_root_of_content H v0 s.t t' h.1 hw' h.2.1 ho' (fun q => by rw [h.2.2.2 q, hl' q])
-    · exact this.1
+    intro s m es h hc hnv
+    have hop := hnv op (by simp)
+    have hstep := tstep_inv H maxSize v0 h op hop.1 hop.2
+    have hcc := tstep_cc H maxSize s es hc op
+    have := ih hstep hcc (fun o ho => hnv o (by simp [ho]))
+    simp only [trun, tspec, tevs, TRel]
+    refine ⟨⟨?_, this.1⟩, this.2.1, by rw [this.2.2, List.append_assoc]⟩
+    rcases op with bop | _ | _ | _ | _ | _ | ⟨child, ces, sr⟩
+    · exact (step_refines maxSize (s := s.ms) (m := m) ⟨h.1, h.2.2.2⟩ bop).2.1
+    · intro t' hw' ho' hl'
+      exact Verif.Props.C02.C02_root_of_content H v0 s.ms.t t' h.1 hw' h.2.1 ho' (fun q => by rw [h.2.2.2 q, hl' q])
+    · trivial
+    · simp [ObsOk, tstep, hc]
+    · simp [ObsOk, tstep, hc]
+    · simp [ObsOk, tstep, hc]
+    · simp only [ObsOk, tstep]
+      cases hap : mergeApplies H s.ms.t child sr
+      · simp
+      · simp [mergeApplies] at hap
+        simp [mergeOk, hap.2]
 
-theorem tinv_init (v0 : Nat) : TInv v0 (Verif.Props.C01.init v0) emptySpec :=
-  ⟨Or.inl rfl, by simp [Verif.Props.C01.init, AllOrigin], rfl, fun q => by simp [Verif.Props.C01.init, emptySpec]⟩
+theorem tinv_init (v0 : Nat) : TInv v0 (xinit v0).ms emptySpec :=
+  ⟨Or.inl rfl, by simp [xinit, Verif.Props.C01.init, AllOrigin], rfl, fun q => by simp [xinit, Verif.Props.C01.init, emptySpec]⟩
+
+/-- the events of a C01 update are those of the very `insertE`/`deleteE` call that computes the model's new tree -/
+theorem opEvents_tree (maxSize : Nat) (s : MState) (p : List Nib) (b : Bytes) (hb : b ≠ []) (hs : ¬ b.length > maxSize) :
+    (mstep maxSize s (.ins p b)).1.t = (insertE s.v b s.t [] p).1 ∧
+    opEvents maxSize s (.ins p b) = (insertE s.v b s.t [] p).2 := by
+  simp [mstep, Verif.Mpt.Trie.insert, opEvents, hb, hs, Verif.MptStore.insertE_fst]
 
 /-- the programs a thread can be left with while it runs `opProg op` -/
-inductive Suffix (L : Loc) (H : Bytes → Bytes) (maxSize : Nat) (op : TOp) : Prog MState TObs → Prop
+inductive Suffix (L : Loc) (H : Bytes → Bytes) (maxSize : Nat) (op : TOp) : Prog XState TObs → Prop
   | whole : Suffix L H maxSize op (.acq (modeOfOp op) (body L H maxSize op))
   | bodyU : isUpdate op = true →
       Suffix L H maxSize op (.rd L 0 (fun s => .wr L 0 (tstep H maxSize s op).1 (.rel (.ret (tstep H maxSize s op).2))))
   | bodyR : isUpdate op = false → Suffix L H maxSize op (.rd L 0 (fun s => .rel (.ret (tstep H maxSize s op).2)))
-  | wr (s : MState) : Suffix L H maxSize op (.wr L 0 (tstep H maxSize s op).1 (.rel (.ret (tstep H maxSize s op).2)))
-  | rel (s : MState) : Suffix L H maxSize op (.rel (.ret (tstep H maxSize s op).2))
+  | wr (s : XState) : Suffix L H maxSize op (.wr L 0 (tstep H maxSize s op).1 (.rel (.ret (tstep H maxSize s op).2)))
+  | rel (s : XState) : Suffix L H maxSize op (.rel (.ret (tstep H maxSize s op).2))
   | ret (r : TObs) : Suffix L H maxSize op (.ret r)
 
 theorem Suffix.ofBody (L : Loc) (H : Bytes → Bytes) (maxSize : Nat) (op : TOp) : Suffix L H maxSize op (body L H maxSize op) := by
@@ -179,12 +307,12 @@ theorem Suffix.ofBody (L : Loc) (H : Bytes → Bytes) (maxSize : Nat) (op : TOp)
   · simp; exact .bodyU h
 
 /-- every program around belongs to an operation satisfying `P` -/
-structure OpsInv (L : Loc) (H : Bytes → Bytes) (maxSize : Nat) (P : TOp → Prop) (c : Config MState TObs) : Prop where
+structure OpsInv (L : Loc) (H : Bytes → Bytes) (maxSize : Nat) (P : TOp → Prop) (c : Config XState TObs) : Prop where
   todo : ∀ t p, p ∈ (c.thr t).todo → ∃ op, P op ∧ p = opProg L H maxSize op
   cur : ∀ t p, (c.thr t).cur = some p → ∃ op, P op ∧ Suffix L H maxSize op p
   lin : ∀ e, e ∈ c.lin → ∃ op, P op ∧ e.prog = body L H maxSize op
 
-theorem OpsInv.init {L : Loc} {H : Bytes → Bytes} {maxSize : Nat} {P : TOp → Prop} (ops : Tid → List TOp) (mem0 : Loc → MState)
+theorem OpsInv.init {L : Loc} {H : Bytes → Bytes} {maxSize : Nat} {P : TOp → Prop} (ops : Tid → List TOp) (mem0 : Loc → XState)
     (h : ∀ t op, op ∈ ops t → P op) :
     OpsInv L H maxSize P (Verif.RW.init (fun t => (ops t).map (opProg L H maxSize)) mem0) where
   todo := by
@@ -195,10 +323,10 @@ theorem OpsInv.init {L : Loc} {H : Bytes → Bytes} {maxSize : Nat} {P : TOp →
   cur := by intro t p hp; simp [Verif.RW.init] at hp
   lin := by intro e he; simp [Verif.RW.init] at he
 
-theorem OpsInv.step {L : Loc} {H : Bytes → Bytes} {maxSize : Nat} {P : TOp → Prop} {c c' : Config MState TObs} {t : Tid}
+theorem OpsInv.step {L : Loc} {H : Bytes → Bytes} {maxSize : Nat} {P : TOp → Prop} {c c' : Config XState TObs} {t : Tid}
     (h : OpsInv L H maxSize P c) (st : Step c t c') : OpsInv L H maxSize P c' := by
   -- generic part: a step that replaces thread `t` by `x`, keeping its todo list (or a tail of it)
-  have frame : ∀ (x : Thread MState TObs) (c'' : Config MState TObs),
+  have frame : ∀ (x : Thread XState TObs) (c'' : Config XState TObs),
       (∀ u, c''.thr u = (c.set t x).thr u) → c''.lin = c.lin →
       (∀ p, p ∈ x.todo → p ∈ (c.thr t).todo) →
       (∀ p, x.cur = some p → ∃ op, P op ∧ Suffix L H maxSize op p) →
@@ -269,14 +397,14 @@ theorem OpsInv.step {L : Loc} {H : Bytes → Bytes} {maxSize : Nat} {P : TOp →
     intro q hq
     simp at hq
 
-theorem OpsInv.exec {L : Loc} {H : Bytes → Bytes} {maxSize : Nat} {P : TOp → Prop} {c c' : Config MState TObs} {s : List Tid}
+theorem OpsInv.exec {L : Loc} {H : Bytes → Bytes} {maxSize : Nat} {P : TOp → Prop} {c c' : Config XState TObs} {s : List Tid}
     (h : OpsInv L H maxSize P c) (ex : Exec c s c') : OpsInv L H maxSize P c' := by
   induction ex with
   | nil => exact h
   | cons st _ ih => exact ih (h.step st)
 
 /-- the log is the list of bodies of some list of operations, each satisfying `P` -/
-theorem OpsInv.log_ops {L : Loc} {H : Bytes → Bytes} {maxSize : Nat} {P : TOp → Prop} : ∀ (es : List (LinEntry MState TObs)),
+theorem OpsInv.log_ops {L : Loc} {H : Bytes → Bytes} {maxSize : Nat} {P : TOp → Prop} : ∀ (es : List (LinEntry XState TObs)),
     (∀ e, e ∈ es → ∃ op, P op ∧ e.prog = body L H maxSize op) →
     ∃ ops : List TOp, (∀ op, op ∈ ops → P op) ∧ es.map (·.prog) = ops.map (body L H maxSize) := by
   intro es
@@ -292,5 +420,17 @@ theorem OpsInv.log_ops {L : Loc} {H : Bytes → Bytes} {maxSize : Nat} {P : TOp 
     rcases ho with rfl | ho
     · exact hP
     · exact hops o ho
+
+/-- projection of the counts and merge outcomes of a result list (for the example below) -/
+def countsOf : List TObs → List Nat
+  | [] => []
+  | .count n :: os => n :: countsOf os
+  | .merged ok :: os => (if ok then 100 else 200) :: countsOf os
+  | _ :: os => countsOf os
+
+/-- non-vacuity of the change-set semantics: an insert leaves one pending change, deleting the same key cancels it,
+an applied merge (start root = the empty root) replays one change -/
+example : countsOf (trun id 100 (xinit 1) [.base (.ins [3, 4] [65]), .count, .base (.del [3, 4]), .count,
+    .merge (.leaf 1 [5] [66]) [.put none ⟨[], .leaf 1 [5] [66]⟩] [], .count]).2 = [1, 0, 100, 1] := by decide +kernel
 
 end Verif.C16Map
